@@ -65,7 +65,7 @@ class Machine:
 def flag_constants(fn: FunctionInfo) -> dict[str, int]:
     """`a, b, c = (2**i for i in range(3))` or `a, b, c = range(3)` -> {a:1,b:2,c:4} / {a:0,b:1,c:2}."""
     out: dict[str, int] = {}
-    for s in ast.walk(fn.node):
+    for s in ast.walk(fn.analysis_node):
         if isinstance(s, ast.Assign) and len(s.targets) == 1 and isinstance(s.targets[0], ast.Tuple) and \
                 all(isinstance(e, ast.Name) for e in s.targets[0].elts):
             names = [e.id for e in s.targets[0].elts]  # type: ignore[union-attr]
